@@ -159,17 +159,25 @@ type Entry struct{ V, W float64 }
 
 // SkModel is the reference state of one sketch slot.
 type SkModel struct {
+	Spec     MapSpec
+	Map      mapping.IndexMapping
 	Pos, Neg *model.MapStore
 	Zero     float64
 	Ent      []Entry
+	// Approx: the bins are no longer predicted by the reference (the content
+	// went through ChangeMapping, which C17 judges); values and weights still are.
+	Approx bool
 }
 
-func NewSkModel(k Kind) *SkModel { return &SkModel{Pos: k.Model(), Neg: k.Model()} }
+func NewSkModel(k Kind, spec MapSpec, mp mapping.IndexMapping) *SkModel {
+	return &SkModel{Spec: spec, Map: mp, Pos: k.Model(), Neg: k.Model()}
+}
 
-func (m *SkModel) Add(mp mapping.IndexMapping, v, w float64) {
+func (m *SkModel) Add(v, w float64) {
 	if w == 0 {
 		return
 	}
+	mp := m.Map
 	switch {
 	case v > mp.MinIndexableValue():
 		m.Pos.Add(mp.Index(v), w)
@@ -188,14 +196,18 @@ func (m *SkModel) MergeFrom(o *SkModel) {
 	m.Neg.MergeFrom(src.Neg)
 	m.Zero += src.Zero
 	m.Ent = append(m.Ent, ent...)
+	if src.Approx {
+		m.Approx = true
+	}
 }
 
 func (m *SkModel) CopyFor(k Kind) *SkModel {
-	c := NewSkModel(k)
+	c := NewSkModel(k, m.Spec, m.Map)
 	c.Pos.MergeFrom(m.Pos)
 	c.Neg.MergeFrom(m.Neg)
 	c.Zero = m.Zero
 	c.Ent = append([]Entry{}, m.Ent...)
+	c.Approx = m.Approx
 	return c
 }
 
@@ -204,6 +216,7 @@ func (m *SkModel) Clear() {
 	m.Neg.Clear()
 	m.Zero = 0
 	m.Ent = nil
+	m.Approx = false
 }
 
 func (m *SkModel) Scale(f float64) {
@@ -227,6 +240,7 @@ func (m *SkModel) Total() float64 {
 }
 
 func (m *SkModel) dump(d *mc.Dumper) {
+	d.Str(m.Spec.String())
 	for _, s := range []*model.MapStore{m.Pos, m.Neg} {
 		for _, k := range s.Keys() {
 			d.Int(k)
@@ -235,6 +249,12 @@ func (m *SkModel) dump(d *mc.Dumper) {
 		d.Tag('/')
 	}
 	d.F64(m.Zero)
+	if m.Approx {
+		d.Tag('~')
+	}
+	if m.Pos.Folded || m.Neg.Folded {
+		d.Tag('f')
+	}
 	// the multiset of absorbed entries (order-free)
 	es := append([]Entry{}, m.Ent...)
 	sort.Slice(es, func(i, j int) bool {
@@ -384,7 +404,11 @@ type SketchWorld struct {
 	S    []*SkSlot
 	M    []*SkModel
 	T    []*SkSlot // C15 twin world: Clear == replace by a new object
+	// err is the result of the last fallible operation on the main world
+	err error
 }
+
+func sameSpec(a, b *SkModel) bool { return a.Spec == b.Spec }
 
 type skOp struct {
 	name   string
@@ -393,6 +417,7 @@ type skOp struct {
 	writes uint32
 	tag    string
 	slot   int
+	src    int
 	factor float64
 }
 
@@ -415,22 +440,35 @@ func must(err error, what string) {
 func skAdd(s int, v float64) skOp {
 	return skOp{name: fmt.Sprintf("%s.Add(%s)", slotName(s), fstr(v)), tag: "add", writes: 1 << uint(s),
 		real: func(_ *SketchWorld, st []*SkSlot, _ bool) { must(st[s].Q().Add(v), "Add of a trackable value refused") },
-		mod:  func(w *SketchWorld) { w.M[s].Add(w.Map, v, 1) }}
+		mod:  func(w *SketchWorld) { w.M[s].Add(v, 1) }}
 }
 func skAddW(s int, v, c float64) skOp {
 	return skOp{name: fmt.Sprintf("%s.AddWithCount(%s, %s)", slotName(s), fstr(v), fstr(c)), tag: "add", writes: 1 << uint(s),
 		real: func(_ *SketchWorld, st []*SkSlot, _ bool) {
 			must(st[s].Q().AddWithCount(v, c), "AddWithCount of a trackable value refused")
 		},
-		mod: func(w *SketchWorld) { w.M[s].Add(w.Map, v, c) }}
+		mod: func(w *SketchWorld) { w.M[s].Add(v, c) }}
 }
 func skMerge(a, b int) skOp {
 	return skOp{name: fmt.Sprintf("%s.MergeWith(%s)", slotName(a), slotName(b)), tag: "merge", writes: 1 << uint(a),
-		real: func(_ *SketchWorld, st []*SkSlot, _ bool) { must(st[a].MergeWith(st[b]), "MergeWith (same mapping) refused") },
-		mod:  func(w *SketchWorld) { w.M[a].MergeFrom(w.M[b]) }}
+		real: func(w *SketchWorld, st []*SkSlot, twin bool) {
+			err := st[a].MergeWith(st[b])
+			if !twin {
+				w.err = err
+			}
+		},
+		mod: func(w *SketchWorld) {
+			if w.err != nil {
+				if sameSpec(w.M[a], w.M[b]) {
+					panic("MergeWith of a sketch with the same mapping refused: " + w.err.Error())
+				}
+				return
+			}
+			w.M[a].MergeFrom(w.M[b])
+		}}
 }
 func skCopy(a, b int) skOp {
-	return skOp{name: fmt.Sprintf("%s = %s.Copy()", slotName(a), slotName(b)), tag: "copy", writes: 1 << uint(a),
+	return skOp{name: fmt.Sprintf("%s = %s.Copy()", slotName(a), slotName(b)), tag: "copy", writes: 1 << uint(a), slot: a, src: b,
 		real: func(_ *SketchWorld, st []*SkSlot, _ bool) { st[a] = st[b].CopyOf() },
 		mod:  func(w *SketchWorld) { w.M[a] = w.M[b].CopyFor(w.S[b].Store) }}
 }
@@ -438,7 +476,7 @@ func skClear(s int) skOp {
 	return skOp{name: fmt.Sprintf("%s.Clear()", slotName(s)), tag: "clear", writes: 1 << uint(s),
 		real: func(w *SketchWorld, st []*SkSlot, twin bool) {
 			if twin {
-				st[s] = NewSkSlot(w.Map, st[s].Store, st[s].Exact)
+				st[s] = NewSkSlot(st[s].Mapping(), st[s].Store, st[s].Exact)
 			} else {
 				st[s].Q().Clear()
 			}
@@ -447,8 +485,10 @@ func skClear(s int) skOp {
 }
 func skReweight(s int, f float64) skOp {
 	return skOp{name: fmt.Sprintf("%s.Reweight(%s)", slotName(s), fstr(f)), tag: "reweight", writes: 1 << uint(s), slot: s, factor: f,
-		real: func(_ *SketchWorld, st []*SkSlot, _ bool) { must(st[s].Q().Reweight(f), "Reweight by a positive factor refused") },
-		mod:  func(w *SketchWorld) { w.M[s].Scale(f) }}
+		real: func(_ *SketchWorld, st []*SkSlot, _ bool) {
+			must(st[s].Q().Reweight(f), "Reweight by a positive factor refused")
+		},
+		mod: func(w *SketchWorld) { w.M[s].Scale(f) }}
 }
 
 // skCodec: a.DecodeAndMergeWith(b.Encode(omit)); with replace a is first
@@ -459,25 +499,37 @@ func skCodec(a, b int, replace, omit bool) skOp {
 		n = fmt.Sprintf("%s = Decode(%s.Encode(omitMapping=%v))", slotName(a), slotName(b), omit)
 	}
 	return skOp{name: n, tag: "codec", writes: 1 << uint(a),
-		real: func(w *SketchWorld, st []*SkSlot, _ bool) {
+		real: func(w *SketchWorld, st []*SkSlot, twin bool) {
+			if !replace && !sameSpec(w.M[a], w.M[b]) {
+				// decoding a stream of another mapping fails part-way (C08 judges the
+				// error); what a failed decode leaves behind is not specified
+				return
+			}
 			var buf []byte
 			st[b].Q().Encode(&buf, omit)
 			if replace {
 				var m mapping.IndexMapping
 				if omit {
-					m = w.Map
+					m = st[b].Mapping()
 				}
 				c, err := DecodeSlot(buf, st[a].Store, st[a].Exact, m)
 				must(err, "decoding a sketch's own encoding failed")
 				st[a] = c
 			} else {
-				must(st[a].Q().DecodeAndMergeWith(buf), "DecodeAndMergeWith of a sketch's own encoding failed")
+				err := st[a].Q().DecodeAndMergeWith(buf)
+				if !twin {
+					w.err = err
+				}
 			}
 		},
 		mod: func(w *SketchWorld) {
 			src := w.M[b]
 			if replace {
-				w.M[a] = NewSkModel(w.S[a].Store)
+				w.M[a] = NewSkModel(w.S[a].Store, src.Spec, src.Map)
+			} else if !sameSpec(w.M[a], src) {
+				return
+			} else if w.err != nil {
+				panic("DecodeAndMergeWith of the encoding of a sketch with the same mapping failed: " + w.err.Error())
 			}
 			w.M[a].MergeFrom(src)
 		}}
@@ -494,7 +546,7 @@ func skProto(a, b int) skOp {
 		},
 		mod: func(w *SketchWorld) {
 			src := w.M[b]
-			w.M[a] = NewSkModel(w.S[a].Store)
+			w.M[a] = NewSkModel(w.S[a].Store, src.Spec, src.Map)
 			w.M[a].MergeFrom(src)
 		}}
 }
@@ -578,7 +630,7 @@ func (sp *SketchScenarioSpec) Build() *mc.Scenario[*SketchWorld] {
 		w := &SketchWorld{Spec: sp.Map, Map: sp.Map.New()}
 		for _, k := range sp.Stores {
 			w.S = append(w.S, NewSkSlot(w.Map, k, sp.Exact))
-			w.M = append(w.M, NewSkModel(k))
+			w.M = append(w.M, NewSkModel(k, sp.Map, w.Map))
 			if sp.Twin {
 				w.T = append(w.T, NewSkSlot(w.Map, k, sp.Exact))
 			}
@@ -631,10 +683,10 @@ func (sp *SketchScenarioSpec) Build() *mc.Scenario[*SketchWorld] {
 			q := w.S[i].Q()
 			real := ObserveSketch(q)
 			obs = append(obs, digest(real))
-			if sp.ContentClause != "" {
+			if sp.ContentClause != "" && !w.M[i].Approx {
 				if got, want := SketchContent(q), w.M[i].Content(); got != want {
 					fails = append(fails, mc.Fail{Clause: sp.ContentClause,
-						Detail: fmt.Sprintf("slot %s (%s store, %s) bins differ from the reference\n  got:  %s\n  want: %s", slotName(i), w.S[i].Store, w.Spec, got, want)})
+						Detail: fmt.Sprintf("slot %s (%s store, %s) bins differ from the reference\n  got:  %s\n  want: %s", slotName(i), w.S[i].Store, w.M[i].Spec, got, want)})
 				}
 			}
 			if sp.Twin {
